@@ -16,6 +16,7 @@ import (
 	"gitlab.com/gomidi/midi/v2/internal/utils"
 	cc "gitlab.com/gomidi/midi/v2/internal/verifh/conccases"
 	cp "gitlab.com/gomidi/midi/v2/internal/verifh/concpairs"
+	"gitlab.com/gomidi/midi/v2/internal/verifh/disturb"
 	"gitlab.com/gomidi/midi/v2/internal/verifh/engine"
 	"gitlab.com/gomidi/midi/v2/internal/verifh/faultio"
 	"gitlab.com/gomidi/midi/v2/internal/verifh/refsmf"
@@ -424,6 +425,7 @@ func writeFile() {
 
 func main() {
 	ctx = engine.Start("C03", "model_checking")
+	disturb.Install(ctx)
 	sp.Thorough = ctx.Thorough()
 	if ctx.ReplayPath != "" {
 		if cp.Replay(ctx, ctx.LoadReplay(), "smf-write", cc.SMFWrite()) {
